@@ -295,11 +295,11 @@ var _ = simdisk.New
 
 func init() {
 	simkit.Register(&simkit.Harness{
-		ID:   "C20",
-		Run:  c20Run,
-		Real: []string{"isaacdatabase.Center/LeveldbPermanent/LeveldbBlockWrite/TempLeveldb/TempPool wired and re-opened with launch.LoadDatabase's constructor sequence", "leveldbstorage", "goleveldb over simdisk"},
-		Stub: []string{"disk: simdisk (clean close = goleveldb Close, reopen on a clone of the simulated disk)", "dummy block maps / state values"},
-		Rule: "each run draws a chain of 1-6 blocks (suffrage and policy changes, re-written keys), pool contents added after each block, and whether the temp databases are merged to the permanent store after each block; at EVERY quiescent point of the history (after each block, after each merge - enumerated, not sampled) all object reads, all *Bytes reads and the pool contents are taken, the storage is closed and re-opened with launch's sequence (NewLeveldbPermanent, NewCenter->loadTemps, MergeAllPermanent, CleanSyncPool, NewTempPool), and the same reads must be identical byte for byte. distinct = event-log hash; non-trivial = non-zero choice and at least one reopen compared",
+		ID:          "C20",
+		Run:         c20Run,
+		Real:        []string{"isaacdatabase.Center/LeveldbPermanent/LeveldbBlockWrite/TempLeveldb/TempPool wired and re-opened with launch.LoadDatabase's constructor sequence", "leveldbstorage", "goleveldb over simdisk"},
+		Stub:        []string{"disk: simdisk (clean close = goleveldb Close, reopen on a clone of the simulated disk)", "dummy block maps / state values"},
+		Rule:        "each run draws a chain of 1-6 blocks (suffrage and policy changes, re-written keys), pool contents added after each block, and whether the temp databases are merged to the permanent store after each block; at EVERY quiescent point of the history (after each block, after each merge - enumerated, not sampled) all object reads, all *Bytes reads and the pool contents are taken, the storage is closed and re-opened with launch's sequence (NewLeveldbPermanent, NewCenter->loadTemps, MergeAllPermanent, CleanSyncPool, NewTempPool), and the same reads must be identical byte for byte. distinct = event-log hash; non-trivial = non-zero choice and at least one reopen compared",
 		Assumptions: []string{"clean close: everything goleveldb wrote to the simulated disk survives"},
 	})
 }
